@@ -398,7 +398,12 @@ func cli(c *run.Ctx, cs Case, w *pipe.Workload, truth []pipe.LineTruth) {
 	args = append(args, paths...)
 	cmd := exec.Command(c.RareBin, args...)
 	cmd.Env = append(os.Environ(), "GOMAXPROCS="+strconv.Itoa(w.Cfg.GoMaxProcs))
-	var stdout, stderr bytes.Buffer
+	var stderr bytes.Buffer
+	mpl := 0
+	for _, p := range paths {
+		mpl = max(mpl, len(p))
+	}
+	stdout := pipe.CapWriter{Max: pipe.OutputBound(w, mpl), OnOverflow: func() { cmd.Process.Kill() }}
 	cmd.Stdout, cmd.Stderr = &stdout, &stderr
 	done := make(chan error, 1)
 	if err := cmd.Start(); err != nil {
@@ -416,6 +421,10 @@ func cli(c *run.Ctx, cs Case, w *pipe.Workload, truth []pipe.LineTruth) {
 	}
 	ctxs := fmt.Sprintf("[cli mode=%s ordered=%v matcher %s %q, args %q]", mode, ordered, w.Matcher.Kind, w.Matcher.Pattern, args[:len(args)-len(paths)])
 	fp := func(class string) string { return "cli-" + class + ":" + mode + ":" + w.Matcher.Kind }
+	if stdout.Overflowed() {
+		c.Violation(fp("runaway-output"), fmt.Sprintf("rare filter wrote more than %d bytes for inputs that cannot produce that much (lines are emitted without end); it was killed %s", stdout.Max, ctxs), cs)
+		return
+	}
 	if strings.Contains(stderr.String(), "panic:") || strings.Contains(stderr.String(), "fatal error:") {
 		c.Violation(fp("crash"), "rare crashed: "+stderr.String()[:min(1500, stderr.Len())]+" "+ctxs, cs)
 		return
